@@ -47,7 +47,10 @@ if missing and len(missing) <= 5:
     env2["PYTHONPATH"] = os.path.join(repo, "src")
     for k in [k for k in env2 if k.startswith("YADISM_") or k in ("PYTHONWARNINGS",)]:
         env2.pop(k)
-    p2 = subprocess.run(["/venv/bin/python", "-m", "pytest", "-q", "-p", "no:cacheprovider", "--timeout=900", "-p", "no:randomly"] + ids, cwd=repo, env=env2, capture_output=True, text=True)
+    import shutil
+
+    shutil.rmtree(os.path.join(repo, ".hypothesis"), ignore_errors=True)  # hypothesis replays a failing example from its database
+    p2 = subprocess.run(["/venv/bin/python", "-m", "pytest", "-q", "-p", "no:cacheprovider", "--timeout=900", "--hypothesis-seed=1"] + ids, cwd=repo, env=env2, capture_output=True, text=True)
     if p2.returncode == 0:
         print(f"  (re-run of {len(missing)} missing stable test(s) passed: flaky)")
         missing = []
